@@ -13,6 +13,7 @@ let parse_cfg (s : string) : cfg =
   let get k d = try List.assoc k kv with Not_found -> d in
   { c_read_to = get "rt" "0" = "1";
     c_write_to = get "wt" "0" = "1";
+    c_tls = (match get "tls" "none" with "ok" -> Some true | "fail" -> Some false | _ -> None);
     c_sess_auth = (match get "sa" "none" with "ok" -> Some true | "fail" -> Some false | _ -> None);
     c_req_auth = get "ra" "0" = "1";
     c_ops = List.map n_of_hex (split_on ',' (get "ops" ""));
@@ -39,6 +40,7 @@ let show_event (e : event) : string =
   match e with
   | EArmRead -> "armr"
   | EArmWrite -> "armw"
+  | EHandshake ok -> if ok then "hs:ok" else "hs:fail"
   | ESessAuth ok -> if ok then "sa:ok" else "sa:fail"
   | EReqAuth (creds, ok) -> "ra:" ^ show_val creds ^ (if ok then ":ok" else ":fail")
   | ECall (sid, sa, ra, op, payload) ->
@@ -122,16 +124,27 @@ let handle (cmd : string) (rest : string) : string =
            end
        | _ -> "driver-error client syntax")
   | "tls" ->
-      (* tls server|client <maxversion hex> <cert> <plaintext 0|1> *)
+      (* tls <role> <maxversion hex> <cert> <plaintext 0|1>
+         role: server | client (fresh config), server-weak | client-weak (config pre-populated with weaker values
+         before the Default*TLSConfig call), intended-server | intended-client (the configuration the property demands) *)
       (match split_on ' ' rest with
        | [ role; mv; ck; pt ] ->
            let cert = (match ck with "none" -> CertNone | "valid" -> CertValid | "selfsigned" -> CertSelfSigned
                                    | "otherca" -> CertOtherCA | "expired" -> CertExpired | "wronghost" -> CertWrongHost | _ -> failwith "cert") in
            let p = { max_version = n_of_hex mv; cert = cert; plaintext = pt = "1" } in
-           let cfg = if role = "server" then inst_server_tls else inst_client_tls in
+           let weak_server = { min_version = n_of_int 769; cauth = VerifyClientCertIfGiven; insecure_skip_verify = false } in
+           let weak_client = { min_version = n_of_int 769; cauth = NoClientCert; insecure_skip_verify = false } in
+           let intended_server = { min_version = n_of_int 771; cauth = RequireAndVerifyClientCert; insecure_skip_verify = false } in
+           let intended_client = { min_version = n_of_int 771; cauth = NoClientCert; insecure_skip_verify = false } in
+           let is_server = (role = "server" || role = "server-weak" || role = "intended-server") in
+           let cfg = (match role with
+             | "server" -> inst_server_tls | "client" -> inst_client_tls
+             | "server-weak" -> inst_server_tls_from weak_server | "client-weak" -> inst_client_tls_from weak_client
+             | "intended-server" -> Some intended_server | "intended-client" -> Some intended_client
+             | _ -> failwith "role") in
            (match cfg with
             | None -> "config-not-understood"
-            | Some c -> if (if role = "server" then server_handshake_ok c p else client_handshake_ok c p) then "admitted" else "refused")
+            | Some c -> if (if is_server then server_handshake_ok c p else client_handshake_ok c p) then "admitted" else "refused")
        | _ -> "driver-error tls syntax")
   | "shutdown" ->
       (* forced schedule tokens -> labels of the interleaving model (Shutdown.v); while Shutdown is closing the
